@@ -152,6 +152,7 @@ _run_before_large_limits = run
 
 def run(ctx):
     large_error_limits(ctx)
+    scoped_error_limits(ctx)
     _run_before_large_limits(ctx)
 
 
@@ -181,6 +182,63 @@ def large_error_limits(ctx):
                 ctx.fail("large-limit", "max_errors=%d, max_workers=%d, %d independent failing calls: %d failed (run %s); %s"
                          % (k, workers, n, count[0], oc, "exactly %d expected" % min(k + 1, n) if workers == 1 else "between %d and %d expected" % (k + 1, k + workers)),
                          {"max_errors": k, "max_workers": workers, "failing_calls": n, "failed": count[0]})
+
+
+def scoped_error_limits(ctx):
+    """max_errors limits the failures of the RUN, wherever in the plan they occur: failing calls spread over plan scopes (one scope each,
+    a few scopes, nested scopes, scopes of mixed types), with a registry (stores failing on write) and without."""
+    uj = core.use_repo()
+    import threading
+    layouts = {"one scope each": lambda i: [("s%d" % i,)], "three scopes": lambda i: [("abc"[i % 3],)], "nested": lambda i: [("outer",), (i % 4,)],
+               "mixed types": lambda i: [((2020 + i, "q")[i % 2],)], "root and one scope": lambda i: [("x",)] if i % 2 else []}
+    for lname, layout in layouts.items():
+        for k in (1, 2, 5):
+            for workers in (1, 2, 3):
+                for where in ("call", "store write"):
+                    n = 12
+                    count, lock = [0], threading.Lock()
+
+                    def bad(i):
+                        if where == "call":
+                            with lock:
+                                count[0] += 1
+                            raise ValueError(i)
+                        return i
+
+                    class FailingStore(uj.ValueStore):
+                        def read(self):
+                            return 0
+
+                        def write(self, v):
+                            with lock:
+                                count[0] += 1
+                            raise IOError(v)
+
+                        def get_modified_time(self):
+                            return None
+                    plan, reg = uj.Plan(), uj.Registry()
+                    calls = []
+                    for i in range(n):
+                        import contextlib
+                        with contextlib.ExitStack() as es:
+                            for sc in layout(i):
+                                es.enter_context(plan.scope(*sc))
+                            calls.append(plan.call(bad, i))
+                            if where == "store write":
+                                reg.add(calls[-1], FailingStore())
+                    try:
+                        uj.run(plan, output=calls, registry=reg if where == "store write" else None, max_errors=k, max_workers=workers, progress=None)
+                        oc = "returned"
+                    except uj.CallError:
+                        oc = "callerror"
+                    except BaseException as e:      # noqa
+                        oc = "raised %s" % type(e).__name__
+                    ctx.case(("c10-scoped-limit", lname, k, workers, where))
+                    ok = oc == "callerror" and (count[0] == min(k + 1, n) if workers == 1 else k + 1 <= count[0] <= k + workers)
+                    if not ok:
+                        ctx.fail("scoped-limit", "max_errors=%d, max_workers=%d, %d independent failing %ss in plan scopes (%s): %d failed (run %s); %s"
+                                 % (k, workers, n, where, lname, count[0], oc, "exactly %d expected" % min(k + 1, n) if workers == 1 else "between %d and %d expected" % (k + 1, k + workers)),
+                                 {"max_errors": k, "max_workers": workers, "failing": n, "where": where, "scopes": lname, "failed": count[0]})
 
 
 def uneven_durations(ctx):
